@@ -5,6 +5,8 @@ mod out;
 mod eng_small;
 mod eng_store;
 mod eng_fringe;
+mod fam;
+mod eng_mdd;
 
 pub struct Args {
     pub engine: String,
@@ -38,6 +40,7 @@ fn main() {
         "cache" => eng_store::run_cache(&a),
         "dom" => eng_store::run_dom(&a),
         "fringe" => eng_fringe::run_fringe(&a),
+        "mdd" => eng_mdd::run_mdd(&a),
         e => { eprintln!("unknown engine {}", e); std::process::exit(2); }
     }
 }
